@@ -23,11 +23,14 @@ DECL = {
     # interface + name spell the same string as declaration 3 ('org.v.I1' + 'name'): two different properties
     # (an array of strings: its values include arrays of exactly one element)
     7: ('org.v.I1n', 'ame', 'as', 'readwrite', 'false', 'ame', False),
+    # an object path: a string on the Python side, its own type on the wire
+    8: ('org.v.I2', 'where', 'o', 'readwrite', 'true', 'where', False),
 }
 # zero, the empty string and False are values like any other
 CONCRETE = {'i': [9, 10, 0, 12], 'u': [0, 20, 21, 22], 's': ['n0', '', 'n2', 'n3'], 'y': [0, 1, 2, 3],
-            'd': [0, 5, 2.5, 7], 'b': [False, True, False, True], 'as': [['n0'], ['a', 'b'], ['c'], ['n3', '']]}
-WRAP = {'i': marshal.Int32, 'u': marshal.UInt32, 's': str, 'y': marshal.Byte, 'd': float, 'b': marshal.Boolean, 'as': list}
+            'd': [0, 5, 2.5, 7], 'b': [False, True, False, True], 'as': [['n0'], ['a', 'b'], ['c'], ['n3', '']],
+            'o': ['/', '/a', '/a/b_1', '/x']}
+WRAP = {'i': marshal.Int32, 'u': marshal.UInt32, 's': str, 'y': marshal.Byte, 'd': float, 'b': marshal.Boolean, 'as': list, 'o': marshal.ObjectPath}
 
 
 def concrete(p, v):
@@ -49,13 +52,13 @@ def value_id(p, x, last):
 #   ifaces = (dbusInterfaces of the base class, of the subclass); sub = ids declared on the subclass;
 #   anon = ids whose DBusProperty does not name its interface; order = order of the initial assignments
 LAYOUTS = {
-    'base-both': dict(ifaces=(('org.v.I1', 'org.v.I2', 'org.v.I1n'), ()), sub=(4, 5, 6), anon=(), order=(1, 2, 3, 4, 5, 6, 7)),
-    'split': dict(ifaces=(('org.v.I1',), ('org.v.I2', 'org.v.I1n')), sub=(2, 6, 7), anon=(), order=(1, 2, 3, 4, 5, 6, 7)),
-    'split-rev': dict(ifaces=(('org.v.I2', 'org.v.I1n'), ('org.v.I1',)), sub=(1, 3, 4, 5), anon=(), order=(7, 6, 5, 4, 3, 2, 1)),
-    'sub-first': dict(ifaces=(('org.v.I1',), ('org.v.I2', 'org.v.I1n')), sub=(2, 6, 7), anon=(3, 4, 5, 6, 7), order=(2, 6, 5, 1, 7, 3, 4)),
-    'anon': dict(ifaces=((), ('org.v.I2', 'org.v.I1', 'org.v.I1n')), sub=(1, 3, 5), anon=(3, 4, 5, 6), order=(4, 3, 1, 6, 2, 5, 7)),
+    'base-both': dict(ifaces=(('org.v.I1', 'org.v.I2', 'org.v.I1n'), ()), sub=(4, 5, 6, 8), anon=(), order=(1, 2, 3, 4, 5, 6, 7, 8)),
+    'split': dict(ifaces=(('org.v.I1',), ('org.v.I2', 'org.v.I1n')), sub=(2, 6, 7, 8), anon=(), order=(8, 1, 2, 3, 4, 5, 6, 7)),
+    'split-rev': dict(ifaces=(('org.v.I2', 'org.v.I1n'), ('org.v.I1',)), sub=(1, 3, 4, 5, 8), anon=(), order=(7, 6, 5, 4, 8, 3, 2, 1)),
+    'sub-first': dict(ifaces=(('org.v.I1',), ('org.v.I2', 'org.v.I1n')), sub=(2, 6, 7, 8), anon=(3, 4, 5, 6, 7), order=(2, 6, 5, 1, 7, 3, 4, 8)),
+    'anon': dict(ifaces=((), ('org.v.I2', 'org.v.I1', 'org.v.I1n')), sub=(1, 3, 5), anon=(3, 4, 5, 6, 8), order=(4, 3, 1, 6, 2, 5, 7, 8)),
     # the `sub` declarations live in a plain mixin class listed AFTER the DBusObject-derived base: class Sub(Base, Mixin)
-    'mixin': dict(ifaces=(('org.v.I1', 'org.v.I2', 'org.v.I1n'), ()), sub=(2, 3, 6), anon=(), order=(3, 1, 2, 7, 6, 5, 4), mixin=True),
+    'mixin': dict(ifaces=(('org.v.I1', 'org.v.I2', 'org.v.I1n'), ()), sub=(2, 3, 6, 8), anon=(), order=(3, 1, 2, 7, 6, 8, 5, 4), mixin=True),
 }
 
 
@@ -150,7 +153,7 @@ def variant_sigs(raw_body, sig):
         vs = raw_body[pos + 1:pos + 1 + sl].decode()
         pos += 1 + sl + 1
         size = {'i': 4, 'u': 4, 'y': 1, 'd': 8, 'b': 4}.get(vs)
-        if vs == 's':
+        if vs in ('s', 'o'):
             pos += (4 - pos % 4) % 4
             n2 = struct.unpack('<I', raw_body[pos:pos + 4])[0]
             pos += 4 + n2 + 1
